@@ -105,6 +105,10 @@ class SpecFn:
         self.name, self.node, self.module, self.pure = name, node, module, pure
 
 
+import os as _os
+FEAS_MS = [int(x) for x in _os.environ.get("VERIF_FEAS_MS", "300,800").split(",")]
+
+
 class MethodRef:
     """Unresolved method of a value object (dynamic dispatch at call time)."""
 
@@ -138,7 +142,7 @@ class Interp:
         self._feas_keepalive = getattr(self, "_feas_keepalive", [])
         self._feas_keepalive.append((list(st.pc), c))
         s0 = z3.Solver()
-        s0.set("timeout", 1000)
+        s0.set("timeout", FEAS_MS[0])
         for h in st.pc:
             if not has_quant(h):
                 s0.add(h)
@@ -148,7 +152,7 @@ class Interp:
             self.feas_cache[key] = False
             return False
         s = z3.Solver()
-        s.set("timeout", 3000)
+        s.set("timeout", FEAS_MS[1])
         for h in st.pc + st.axioms:
             if not has_quant(h):     # dropping hypotheses only makes more paths feasible (sound)
                 s.add(h)
